@@ -34,6 +34,12 @@ def compatible(static: str, pl: str, backend: str, all_null: bool):
         return pl == "Boolean"
     if s.startswith("String") or s.startswith("Enum"):
         return pl in ("String", "Utf8") or pl.startswith("Enum") or pl.startswith("Categorical")
+    if s == "Duration":
+        return pl.startswith("Duration")
+    if s.startswith("List["):
+        return pl.startswith("List(")
+    if s == "Time":
+        return pl == "Time"
     if s == "Date":
         return pl == "Date"
     if s == "Datetime":
@@ -43,8 +49,119 @@ def compatible(static: str, pl: str, backend: str, all_null: bool):
     return False
 
 
+# (backend, operator, first argument type) of the listed findings met by the operator grid
+KNOWN_GRID = {
+    ("polars", "clip", "String"): "F42", ("polars", "clip", "Bool"): "F42",
+    ("sqlite", "str_join", "String"): "F43",
+    ("sqlite", "round", "Int64"): "F44",
+}
+
+
+def operator_grid(ctx, res):
+    """every operator x declared overload on a table with three columns per type (Int64, Float64, String, Bool, Date,
+    Datetime; nulls included), executed on Polars and SQLite: the exported dtype is the static one (families on SQLite);
+    shift in both directions with and without a fill value.  Data-dependent engine errors (unparsable strings,
+    negative lengths) are counted, not reported."""
+    import collections
+    import datetime as dt
+
+    import polars as pl
+    import sqlalchemy as sqa
+
+    import pydiverse.transform as pdt
+    from pydiverse.transform import extended as X
+    from pydiverse.transform._internal.errors import NotSupportedError
+    from pydiverse.transform._internal.ops.op import Ftype
+    from pydiverse.transform._internal.tree import types as T
+    from pydiverse.transform._internal.tree.col_expr import ColFn
+    from translate import all_operators, concrete_signatures, dtype_to_json
+    listed = pipeprop.listed_findings()
+    VAL = {"Int64": [3, None, 2, 7], "Float64": [1.5, -0.25, None, 2.0], "String": ["a", None, "b c", ""],
+           "Bool": [True, False, None, True],
+           "Date": [dt.date(2020, 1, 2), None, dt.date(1999, 12, 31), dt.date(2024, 2, 29)],
+           "Datetime": [dt.datetime(2020, 1, 2, 3, 4, 5), dt.datetime(2001, 1, 1), None, dt.datetime(2024, 2, 29, 23, 59, 59)]}
+    LIT = {"Int64": 3, "Float64": 1.5, "String": "a", "Bool": True, "Date": dt.date(2020, 1, 2),
+           "Datetime": dt.datetime(2020, 1, 2, 3, 4, 5)}
+    df = pl.DataFrame({f"{ty.lower()}{i}": (VAL[ty][i:] + VAL[ty][:i]) for ty in VAL for i in range(3)} | {"k": [1, 2, 3, 4]})
+    eng = sqa.create_engine("sqlite://")
+    df.write_database("w", eng)
+    tabs = {"polars": pdt.Table(df, name="w"), "sqlite": pdt.Table("w", pdt.SqlAlchemy(eng))}
+    skip = {"nulls_first", "nulls_last", "ascending", "descending", "rand", "str_to_datetime", "str_to_date"}
+    cnt = collections.Counter()
+    hit = collections.Counter()
+    bad = 0
+    for b, tbl in tabs.items():
+        for opvar, op in all_operators():
+            if opvar in skip:
+                continue
+            for tys in concrete_signatures(op):
+                if op.return_type(list(tys)) is None:
+                    continue
+                names = [type(T.without_const(t)).__name__ for t in tys]
+                if any(n not in VAL for n in names):
+                    cnt[f"{b}:skipped (no such column type)"] += 1
+                    continue
+                used = collections.Counter()
+                args = []
+                for ty, nm in zip(tys, names):
+                    if T.is_const(ty):
+                        args.append(LIT[nm])
+                    else:
+                        args.append(tbl[f"{nm.lower()}{used[nm] % 3}"])
+                        used[nm] += 1
+                variants = [args]
+                if opvar == "shift":
+                    variants = [[args[0], n, f] for n in (1, -1) for f in (None, LIT[names[0]])]
+                for a in variants:
+                    st = pt = None
+                    try:
+                        with warnings.catch_warnings():
+                            warnings.simplefilter("ignore")
+                            kw = {"arrange": [tbl.k]} if op.ftype == Ftype.WINDOW else {}
+                            a2 = list(a)
+                            if a2 and not any(isinstance(x, pdt.ColExpr) for x in a2):
+                                a2[0] = pdt.lit(a2[0])
+                            e = ColFn(op, *a2, **kw)
+                            q = (tbl >> X.summarize(z=e)) if op.ftype == Ftype.AGGREGATE else (tbl >> X.mutate(z=e) >> X.select(pdt.C.z))
+                            st = str(T.without_const(q.z.dtype()))
+                            out = q >> X.export(pdt.Polars())
+                        pt = str(out.dtypes[0])
+                        ok = compatible(st, pt, b, all(v is None for v in out["z"].to_list()))
+                        what = None if ok else f"static type {st} but exported as {pt}"
+                    except NotSupportedError:
+                        cnt[f"{b}:NotSupportedError"] += 1
+                        continue
+                    except Exception as ex:  # noqa: BLE001
+                        what = f"{type(ex).__name__}: {str(ex)[:120]}"
+                        if opvar in ("str_slice",) and "conversion from" in what:
+                            cnt[f"{b}:data-dependent engine error"] += 1
+                            continue
+                    if what is None:
+                        cnt[f"{b}:ok"] += 1
+                        continue
+                    fid = KNOWN_GRID.get((b, opvar, names[0]))
+                    if fid in listed:
+                        hit[fid] += 1
+                        continue
+                    cnt[f"{b}:differs"] += 1
+                    bad += 1
+                    if bad <= 3:
+                        res.violations.append({
+                            "what": f"{b}: `{opvar}` {[dtype_to_json(t) for t in tys]}"
+                                    f"{' args ' + repr([x for x in a[1:]]) if opvar == 'shift' else ''}: {what}",
+                            "found_input": True,
+                            "payload": {"backend": b, "operator": opvar, "argument_types": [dtype_to_json(t) for t in tys],
+                                        "detail": what, "replay": "harness/props/c12.py operator_grid (table `w`: three columns per type)"}})
+    for fid, k in sorted(hit.items()):
+        res.known.append(f"{fid} {listed[fid]['what'][:200]} ({k} grid cells)")
+    res.coverage["operator_dtype_grid"] = dict(cnt)
+    res.coverage["evaluations"] = res.coverage.get("evaluations", 0) + sum(cnt.values())
+
+
 def run(ctx, res):
     cases, obs, verdicts = pipeprop.run(ctx, res, "C12", PROFILE, n_quick=350, n_thorough=5000, probe_ids=())
+    if not ctx.replay or "case" not in __import__("json").loads(open(ctx.replay).read()):
+        operator_grid(ctx, res)
     import pydiverse.transform as pdt
     from pydiverse.transform import extended as X
     listed = pipeprop.listed_findings()
